@@ -131,7 +131,7 @@ def run(chk, replay=None):
     jobs = [("q120 table metadata", drive_meta, (ns,))]
     stage_ns = [2, 4, 16, 64, 512, 2048, 4096] if quick else [2, 4, 8, 16, 32, 64, 128, 256, 512, 1024, 2048, 4096, 8192, 32768]
     jobs += [("staged NTT runs n in %s" % stage_ns[i::4], drive_stages, (stage_ns[i::4], quick)) for i in range(4)]
-    jobs += [("worst-case products", drive_products, ([1, 100, 10000] if quick else [0, 1, 2, 100, 5000, 9999, 10000],))]
+    jobs += [("worst-case products", drive_products, ([0, 1, 100, 10000] if quick else [0, 1, 2, 100, 5000, 9999, 10000],))]
     if not quick:
         jobs += [("worst-case products (ell=10000)", drive_products, ([10000],))]
     res = isolated_many(chk, jobs, timeout=2400, nproc=6)
